@@ -15,6 +15,8 @@ Three streams of cases, all from ctx.rng:
             trajectory of (u, w): the model's loop control (`ctrl`) run on that trajectory must give the implementation's
             training_iter / tolerance_reached and the returned parameters must be the trajectory state of that iteration
             divided by C() (theorem C15_fit_returns); update steps and whole short fits are replayed by the model.
+Fixed cases replayed at the start of every run: the D28 witness (known finding) and the D46 regression cases (repaired defect:
+an update entry with a vanishing denominator was 0/0; ordinary cases, any non-finite parameter is a violation).
 """
 import itertools
 import math
@@ -28,7 +30,9 @@ from hgxv import Q
 
 RULE = ("closed/update cases: N in 2..7 nodes, K in 1..3, u entries k/8 (k<=16, about 20% zeros), w symmetric or diagonal "
         "with entries k/8, D in 2..N, 1..9 distinct hyperedges of size 2..D, unweighted or with weights k/4 or integer, priors "
-        "0 / 1/2 / 1 / 5 or a symmetric dyadic array; fit cases: seed x (which of u, w is supplied) x assortative x "
+        "0 / 1/2 / 1 / 5 or a symmetric dyadic array, about 13% of the update cases (10% of the fit cases with supplied u) with a "
+        "community held by a single node or by nobody, and supplied affinities with a community without affinity (vanishing "
+        "denominators: the repaired branch of D46); 8 fixed D46 regression cases on every run, 8% of the supplied memberships scaled by 2^-10/-20/-30; fit cases: seed x (which of u, w is supplied) x assortative x "
         "w_prior in {0,1,5} or a symmetric positive array x u_prior in {0,1} or a positive array x max_hye_size None/given x "
         "tolerance (not passed / None / 0 / 1e-9..100) x check_convergence_every (not passed / 0 / 1..12) x K, assortative "
         "passed or inferred x hypergraph built directly or through a history (shuffled insertion, non-contiguous labels, "
@@ -140,6 +144,21 @@ def all_edges(N, d):
 
 def gen_u(rng, N, K):
     u = [[Fraction(0 if rng.random() < 0.2 else rng.randint(1, 16), 8) for _ in range(K)] for _ in range(N)]
+    return u
+
+
+def single_holder(rng, u, N, K):
+    """memberships in which a community k >= 1 is held by one node only (or by nobody) while community 0 is held by every
+    node: the data keep positive Poisson parameters, the denominators of the updates that belong to k vanish (the branch
+    of the D46 repair: entry := 0 instead of 0/0)"""
+    u = [list(row) for row in u]
+    for i in range(N):
+        if u[i][0] == 0:
+            u[i][0] = Fraction(rng.randint(1, 16), 8)
+    for k in rng.sample(range(1, K), rng.randint(1, K - 1)):
+        holder = rng.randrange(N) if rng.random() < 0.8 else None
+        for i in range(N):
+            u[i][k] = Fraction(rng.randint(1, 16), 8) if i == holder else Fraction(0)
     return u
 
 
@@ -569,14 +588,19 @@ def check_update(ctx, drv, case):
     lines += ["setu " + enc_mat(u), "setw " + enc_mat(w),
               "data " + hgxv.enc_lists(cols) + " " + hgxv.enc_list([F(x) for x in hw])]
     expect += [("ok", None)] * 3
-    wden_ok = all(lams) and all(
-        Fraction(1, 2) * (sum(u[i][a] for i in range(N)) * sum(u[i][b] for i in range(N)) - sum(u[i][a] * u[i][b] for i in range(N)))
-        + rw[a][b] != 0 for a in range(K) for b in range(K))
+    # since the repair of D46 only a vanishing Poisson parameter (multiplier = weight / parameter) can make an update fail:
+    # an entry whose denominator vanishes is set to 0 by the code (model: `safeDiv`), and that must be the only such entry
+    lam_ok = all(lams)
+    wden = [[Fraction(1, 2) * (sum(u[i][a] for i in range(N)) * sum(u[i][b] for i in range(N)) - sum(u[i][a] * u[i][b] for i in range(N)))
+             + rw[a][b] for b in range(K)] for a in range(K)]
+    if lam_ok and any(x == 0 for row in wden for x in row):
+        ctx.count("w_updates_with_a_vanishing_denominator")
     # ---- w update
     st, r = guarded(lambda: model._w_update(Bo, A))
     if st != "ok":
-        if wden_ok:
-            bad.append(f"_w_update raised {r} although every Poisson parameter and denominator is non-zero")
+        if lam_ok:
+            bad.append(f"_w_update raised {r} although every Poisson parameter is non-zero (denominators: "
+                       f"{[[str(x) for x in row] for row in wden]}; an entry with a vanishing denominator is 0/0 and must become 0)")
         lines.append("wupd " + enc_mat(rw))
         expect.append(("raw", "nonfinite"))
     else:
@@ -603,14 +627,16 @@ def check_update(ctx, drv, case):
             elif p1 < p0 - TOL * max(1.0, abs(p0)):
                 ctx.count("D28_one_step_plain_decrease_with_prior")
     # ---- u update
-    uden_ok = all(lams) and all(
-        sum(w[a][c] * sum(u[j][c] for j in range(N)) for c in range(K)) - sum(u[i][c] * w[c][a] for c in range(K)) + ru[i][a] != 0
-        for i in range(N) for a in range(K))
+    uden = [[sum(w[a][c] * sum(u[j][c] for j in range(N)) for c in range(K)) - sum(u[i][c] * w[c][a] for c in range(K)) + ru[i][a]
+             for a in range(K)] for i in range(N)]
+    if lam_ok and any(x == 0 for row in uden for x in row):
+        ctx.count("u_updates_with_a_vanishing_denominator")
     st, r = guarded(lambda: model._u_update(Bo, A))
     lines.append("uupd " + enc_mat(ru))
     if st != "ok":
-        if uden_ok:
-            bad.append(f"_u_update raised {r} although every Poisson parameter and denominator is non-zero")
+        if lam_ok:
+            bad.append(f"_u_update raised {r} although every Poisson parameter is non-zero (denominators: "
+                       f"{[[str(x) for x in row] for row in uden]}; an entry with a vanishing denominator is 0/0 and must become 0)")
         expect.append(("raw", "nonfinite"))
     else:
         u1 = [[F(x) for x in row] for row in r]
@@ -630,10 +656,17 @@ def gen_update(rng):
     diag = rng.random() < 0.4
     edges, weights = gen_edges(rng, N, N, nmax=7)
     u = gen_u(rng, N, K)
-    if rng.random() < 0.7:   # mostly strictly positive memberships: every Poisson parameter positive
+    r = rng.random()
+    if r < 0.6:   # mostly strictly positive memberships: every Poisson parameter positive
         u = [[x if x > 0 else Fraction(rng.randint(1, 16), 8) for x in row] for row in u]
-    return {"kind": "update", "N": N, "K": K, "u": u, "w": gen_w(rng, K, diag), "edges": edges, "weights": weights,
+    single = 0.6 <= r < 0.8 and K >= 2
+    if single:
+        u = single_holder(rng, u, N, K)
+    case = {"kind": "update", "N": N, "K": K, "u": u, "w": gen_w(rng, K, diag), "edges": edges, "weights": weights,
             "w_prior": gen_prior(rng, K, K, True), "u_prior": gen_prior(rng, N, K, False), "hist": gen_history(rng, N, edges)}
+    if single and rng.random() < 0.6:    # without a prior the denominators of the single-holder community are exactly 0
+        case["w_prior"] = case["u_prior"] = 0.0
+    return case
 
 
 # -------------------------------------------------------------------------------------------------
@@ -755,10 +788,10 @@ def trajectory(steps, free_w, free_u, p_fixed, n):
 
 
 def underflow_regime(kind, u, w, edges, ru, rw):
-    """is the float state (u, w) one in which the next update divides by (numerically) zero?  The Poisson parameters of
-    the data and the update's denominators, by their definitions in binary64; `None` when all are of ordinary size.
-    The theorems assume positive Poisson parameters and denominators (C15_update_finite); in binary64 a membership
-    column that shrinks doubly exponentially reaches 1e-200 and its products underflow to exactly 0."""
+    """diagnosis for a non-finite update result (D46, repaired): is the float state (u, w) one in which the update divides
+    by (numerically) zero?  The Poisson parameters of the data and the update's denominators, by their definitions in
+    binary64; `None` when all are of ordinary size.  In binary64 a membership column that shrinks doubly exponentially
+    reaches 1e-200 and its products underflow to exactly 0; the repaired updates store 0 where the denominator vanishes."""
     import numpy as np
     tiny = 1e-250
     with np.errstate(all="ignore"):
@@ -793,8 +826,11 @@ def predict_stop(T, tol, every, n, N, K, margin):
                 continue
             dw = frob(T[it + 1][1], T[it][1]) / K
             du = frob(T[it + 1][0], T[it][0]) / N
+            size = max(1.0, max(abs(float(x)) for x in T[it + 1][1].ravel()), max(abs(float(x)) for x in T[it + 1][0].ravel()))
             for dd in (dw, du):
-                if dd > 0 and abs(dd - tol) <= margin * max(dd, abs(tol)):
+                # undecidable in binary64: within the relative margin, or closer to the tolerance than the rounding noise
+                # of the distance itself (a distance that is exactly 0 in exact arithmetic is 1 ulp of the entries here)
+                if dd > 0 and (abs(dd - tol) <= margin * max(dd, abs(tol)) or abs(dd - tol) <= 1e-12 * size):
                     border = True
             if dw < tol and du < tol:
                 return it, True, border
@@ -805,17 +841,6 @@ def enc_traj(T):
     us = "|".join(enc_mat(u.tolist()) for u, _ in T)
     ws = "|".join(enc_mat(w.tolist()) for _, w in T)
     return f"traj {us} {ws}"
-
-
-def underflow_finding(ctx, case, it, kind, why):
-    """binary64 underflow makes `fit` return NaN parameters (unchanged tree: e.g. one hyperedge (0,1,2), K=3, u and w
-    inferred, n_iter >= 10).  Printed as KNOWN-FINDING once an entry for it is listed in known_findings.json
-    (property C15, class containing 'underflow'); until then it is counted in the evidence only."""
-    ctx.count("fit_cases_non_finite_after_binary64_underflow")
-    ent = [f for f in getattr(ctx, "known_findings", []) or [] if f.get("property") == "C15" and "underflow" in str(f.get("class", ""))]
-    if ent:
-        ctx.known(ent[0].get("id"), f"call-site class 'binary64 underflow': the {kind}-update of iteration {it} returns a non-finite value "
-                                    f"({why}); N={case['N']} K={case['K']} edges={case['edges']} seed={case['seed']}")
 
 
 def check_fit(ctx, drv, case, nmax=8, model_replay=True):
@@ -854,22 +879,16 @@ def check_fit(ctx, drv, case, nmax=8, model_replay=True):
             mm = data_mismatch(r2[2], r2[3], edges, case["weights"])
             if mm:
                 bad.append(mm)
-        # binary64 underflow: the first non-finite update result, if it comes from a state whose Poisson parameters /
-        # denominators have underflowed (outside the hypotheses of the theorems, reported as a count / known finding);
-        # the iterations before it are checked as usual
+        # "keeps all parameters finite": the first non-finite update result of the reference run is a violation, whatever the
+        # state it comes from.  (D46, repaired: a state whose denominators had underflowed / vanished gave 0/0; that class
+        # was only counted before the repair - a repaired defect that returns must be reported.)
         per = int(free_w) + int(free_u)
         for idx, (kind, ui, wi, out) in enumerate(ref_steps):
             if not np.all(np.isfinite(out)):
                 why = underflow_regime(kind, ui, wi, edges, ru, rw) if np.all(np.isfinite(ui)) and np.all(np.isfinite(wi)) else None
-                if why is None:
-                    bad.append(f"fit(n_iter={Nref}): the {kind}-update of iteration {idx // per} gave a non-finite value from an ordinary "
-                               f"finite state (u={ui.tolist()}, w={wi.tolist()})")
-                else:
-                    underflow_finding(ctx, case, idx // per, kind, why)
-                    n_list = [n for n in n_list if n <= idx // per]
-                    ref_steps = ref_steps[:(idx // per) * per]
-                    T = T[:idx // per + 1] if T is not None else None
-                    Nref = idx // per
+                bad.append(f"fit(n_iter={Nref}): the {kind}-update of iteration {idx // per} gave a non-finite value from the finite "
+                           f"state u={ui.tolist()}, w={wi.tolist()}"
+                           + (f" ({why}: the D46 class - an entry whose denominator vanishes must be set to 0)" if why else ""))
                 break
     elif not (expect_rej and r.startswith("ValueError")):
         bad.append(f"fit(n_iter={Nref}) raised {r}")
@@ -881,8 +900,14 @@ def check_fit(ctx, drv, case, nmax=8, model_replay=True):
         if T is not None and checks:
             itc = checks[min(spec["k"], len(checks) - 1)]
             base = max(frob(T[itc + 1][1], T[itc][1]) / K, frob(T[itc + 1][0], T[itc][0]) / N)
-            if base > 0 and math.isfinite(base):
+            size = max(1.0, float(np.max(np.abs(T[itc + 1][1]))), float(np.max(np.abs(T[itc + 1][0]))))
+            if math.isfinite(base) and base > 1e-10 * size:
                 resolved = base * spec["factor"]
+            elif base > 0:
+                # the distance itself is rounding noise (e.g. K = 1 with supplied u: the w-update is at its fixed point after
+                # one pass, exact distance 0, binary64 distance 1 ulp): a boundary relative to it cannot be compared with the
+                # exact model; the default 1e-3 is used
+                ctx.count("boundary_tolerance_within_rounding_noise_replaced")
         case = {**case, "tolerance": resolved}
         ctx.count("fit_cases_tolerance_at_decision_boundary")
     tol, every = stop_of(case)
@@ -1107,12 +1132,21 @@ def gen_fit(rng):
     u = w = None
     if which in ("u", "both"):
         u = [[Fraction(rng.randint(1, 16), 8) for _ in range(K)] for _ in range(N)]
+        if K >= 2 and rng.random() < 0.15:
+            u = single_holder(rng, u, N, K)
+        if rng.random() < 0.08:      # the property does not depend on the scale of the memberships (exact in binary64: 2^-s)
+            sc = Fraction(1, 2 ** rng.choice([10, 20, 30]))
+            u = [[x * sc for x in row] for row in u]
     if which in ("w", "both"):
         w = gen_w(rng, K, assort)
         for a in range(K):   # strictly positive where allowed: the u-update divides by w @ u_sum
             for b in range(K):
                 if (a == b or not assort) and w[a][b] == 0:
                     w[a][b] = w[b][a] = Fraction(1, 2)
+        if K >= 2 and rng.random() < 0.15:   # a community without any affinity: its column of `_u_update` has denominator 0
+            k = rng.randint(1, K - 1)
+            for b in range(K):
+                w[k][b] = w[b][k] = Fraction(0)
     r = rng.random()
     mhs = None if r < 0.5 else (rng.randint(Dtrue, N) if r < 0.93 or Dtrue <= 2 else rng.randint(2, Dtrue - 1))
     small = len(edges) <= 4 and N <= 4 and which != "none"   # exact rationals explode when u and w both move
@@ -1151,7 +1185,66 @@ D28_CASE = {"kind": "fit", "N": 3, "K": 2, "assortative": True, "edges": [(0, 1)
             "seed": 0, "w_init": [[1, 0], [0, 1]], "model_fit_upto": 3, "nmax": 3, "n_list": [1, 2, 3]}
 
 
+# -------------------------------------------------------------------------------------------------
+# D46 (repaired): an entry of a multiplicative update whose denominator vanishes was 0/0 and `fit` returned all-NaN
+# parameters.  Regression cases replayed on every run as ORDINARY cases (finite, non-negative, supplied inputs
+# untouched, ascent, correspondence): on the unrepaired code each of them is a violation.
+#   underflow  : the original witness - u and w inferred, a membership column shrinks doubly exponentially, its products
+#                underflow to exactly 0 in binary64 around iteration 8 and the w-update is 0/0 (NaN from n_iter = 9/10 on)
+#   single-u   : exact arithmetic, no rounding involved - memberships supplied in which community 1 is held by node 0 alone:
+#                the (1, 1) denominator of `_w_update` is 0 (model: `safeDiv`, Lean example in Props/C15.lean)
+#   zero-w     : affinity supplied with w_11 = 0, memberships inferred without prior: the denominator of column 1 of
+#                `_u_update` is 0
+#   single-u-tiny : see below
+#   found-*    : three more cases of the class found by search on the unrepaired code (first non-finite value at
+#                iteration 8 / 10 by underflow, at iteration 45 by a denominator that cancels to exactly 0)
+D46_CASES = [
+    ("underflow", {"kind": "fit", "N": 3, "K": 3, "assortative": True, "edges": [(0, 1, 2)], "weights": [2.25], "u": None, "w": None,
+                   "w_prior": 0.0, "u_prior": [[0.5, 0.5, 0.5], [1, 1.75, 0.5], [1, 1.75, 1.75]], "max_hye_size": None,
+                   "seed": 819478, "model_fit_upto": 0, "n_list": [1, 2, 4, 8, 9, 10, 11, 12, 16, 24]}),
+    ("single-u-assortative", {"kind": "fit", "N": 3, "K": 2, "assortative": True, "edges": [(0, 1, 2), (0, 1)], "weights": None,
+                              "u": [[1, 1], [1, 0], [Fraction(1, 2), 0]], "w": None, "w_prior": 0.0, "u_prior": 0.0,
+                              "max_hye_size": None, "seed": 3, "model_fit_upto": 3, "n_list": [1, 2, 3, 4, 6]}),
+    ("single-u-full", {"kind": "fit", "N": 3, "K": 2, "assortative": False, "edges": [(0, 1, 2), (0, 1)], "weights": [2, 1],
+                       "u": [[1, 1], [1, 0], [Fraction(1, 2), 0]], "w": None, "w_prior": 0.0, "u_prior": 0.0,
+                       "max_hye_size": None, "seed": 4, "model_fit_upto": 3, "n_list": [1, 2, 3, 4, 6]}),
+    # the same memberships scaled by 2^-30: the positive denominators are about 1e-18 and must still be divided by (a guard
+    # with a threshold instead of `> 0` zeroes the whole affinity)
+    ("single-u-tiny", {"kind": "fit", "N": 3, "K": 2, "assortative": True, "edges": [(0, 1, 2), (0, 1)], "weights": None,
+                       "u": [[Fraction(1, 2 ** 30), Fraction(1, 2 ** 30)], [Fraction(1, 2 ** 30), 0], [Fraction(1, 2 ** 31), 0]], "w": None,
+                       "w_prior": 0.0, "u_prior": 0.0, "max_hye_size": None, "seed": 3, "model_fit_upto": 3, "n_list": [1, 2, 3, 4, 6]}),
+    ("zero-w", {"kind": "fit", "N": 3, "K": 2, "assortative": True, "edges": [(0, 1, 2), (0, 1)], "weights": None,
+                "u": None, "w": [[Fraction(1, 2), 0], [0, 0]], "w_prior": 1.0, "u_prior": 0.0,
+                "max_hye_size": None, "seed": 5, "model_fit_upto": 2, "n_list": [1, 2, 3, 4]}),
+    ("found-503069", {"kind": "fit", "N": 6, "K": 2, "assortative": True, "edges": [(0, 1, 2, 3, 4, 5), (0, 1, 3, 5)], "weights": None,
+                      "u": None, "w": None, "w_prior": 0.0, "u_prior": 1.0, "max_hye_size": None, "seed": 503069,
+                      "model_fit_upto": 0, "n_list": [1, 8, 9, 10, 12, 24]}),
+    ("found-734471", {"kind": "fit", "N": 3, "K": 2, "assortative": True, "edges": [(0, 1, 2), (0, 2)], "weights": [3, 4],
+                      "u": None, "w": None, "w_prior": 0.0, "u_prior": [[1.25, 0.5], [0.75, 1.5], [1.5, 0.5]], "max_hye_size": None,
+                      "seed": 734471, "model_fit_upto": 0, "n_list": [1, 8, 10, 11, 12, 24]}),
+    ("found-310103", {"kind": "fit", "N": 5, "K": 3, "assortative": False, "edges": [(0, 2), (0, 1, 2, 3, 4), (3, 4)], "weights": None,
+                      "u": None, "w": None, "w_prior": 1.0, "u_prior": 0.0, "max_hye_size": 5, "seed": 310103,
+                      "model_fit_upto": 0, "n_list": [1, 8, 40, 46, 47, 48, 56]}),
+]
+
+
+def replay_d46(ctx, drv):
+    import numpy as np
+    for name, case in D46_CASES:
+        safely(ctx, check_fit, drv, dict(case))
+        ctx.count("D46_regression_cases_replayed")
+        # does the case still reach the repaired branch?  (an inferred entry that is exactly 0 after the longest run;
+        # informative only)
+        st, b = guarded(lambda: run_fit(case, max(case["n_list"]), record=False, no_stop=True)[0])
+        if st == "ok":
+            bu, bw = np.asarray(b.u, dtype=float), np.asarray(b.w, dtype=float)
+            free_w = np.eye(bw.shape[0], dtype=bool) if case["assortative"] else np.ones(bw.shape, dtype=bool)
+            if (case["u"] is None and np.any(bu == 0)) or (case["w"] is None and np.any((bw == 0) & free_w)):
+                ctx.count("D46_regression_cases_reaching_the_repaired_branch")
+
+
 def replay_known(ctx, drv):
+    replay_d46(ctx, drv)
     if D28_CASE is None:
         return
     d28, liks = check_fit(ctx, drv, dict(D28_CASE), nmax=D28_CASE.get("nmax", 3), model_replay=True)
